@@ -8,6 +8,7 @@ import (
 	"strings"
 	"time"
 
+	"github.com/mdzio/go-mqtt/auth"
 	"github.com/mdzio/go-mqtt/message"
 	"github.com/mdzio/go-mqtt/service"
 	"github.com/mdzio/go-mqtt/sessions"
@@ -52,12 +53,27 @@ func (w *World) ImplKey() string {
 
 const addr = "broker:1883"
 
+// SelectiveAuth is an authenticator registered by the harness: it rejects the
+// user "evil" and accepts everybody else.
+const SelectiveAuth = "verifSelective"
+
+type selectiveAuth struct{}
+
+func (selectiveAuth) Authenticate(id string, cred interface{}) error {
+	if id == "evil" {
+		return auth.ErrAuthFailure
+	}
+	return nil
+}
+
 // NewWorld resets process-global state, starts the server's accept loop in its
 // own thread and waits until it is parked in Accept.
 func NewWorld(cfg Config) *World {
 	service.VerifResetGlobals()
 	message.VerifSetPacketIDCounter(0)
 	topics.VerifResetProviders()
+	auth.Unregister(SelectiveAuth)
+	auth.Register(SelectiveAuth, selectiveAuth{})
 	topics.Unregister("vt")
 	sessions.Unregister("vs")
 	tp, sp := topics.NewMemProvider(), sessions.NewMemProvider()
